@@ -92,6 +92,19 @@ def fault_variants(rng, base, nv, limit, types=(1, 2, 3), pairs=False, mode="eva
     return out
 
 
+def finding_key(c):
+    """Stable key for violations that belong to a recorded known finding (else text|tag)."""
+    from ..corpus import merged_outer_cms
+    if c.tag.endswith("|with2") and c.fault:
+        outer = merged_outer_cms(c.tree)
+        ncm = len(c.supp)
+        # a fault at the __exit__ site of a later manager while an earlier manager suppresses
+        exit_sites = {c.ns + 2 * k for k in range(1, ncm + 1) if k not in outer}
+        if any(c.supp.get(k) for k in outer) and set(c.fault) <= exit_sites:
+            return "with: later manager's __exit__ raises after the body, earlier manager suppresses"
+    return c.text + " | " + c.tag
+
+
 def decide(run, cases, nv, label, explore_small=0):
     """Trace-validate every case; diagnose rejections by exploration."""
     usable = []
@@ -149,7 +162,7 @@ def decide(run, cases, nv, label, explore_small=0):
             if any(norm(a) == norm(obs) for a in allowed):
                 raise MachineryError(f"trace rejected but outcome explored as allowed: {c.text}")
             allowed_s = sorted({norm(a) for a in allowed})[:6]
-            run.violation(c.text + " | " + c.tag,
+            run.violation(finding_key(c),
                           f"{c.text} [{c.tag}] observed out={c.obs['out']} log={c.obs['log']} "
                           f"globals={c.obs['globals']}; spec allows {len(allowed)} outcome(s)",
                           {"text": c.text, "script": c.script, "fault": c.fault, "supp": c.supp,
@@ -184,13 +197,13 @@ def decide(run, cases, nv, label, explore_small=0):
     return usable
 
 
-def build_cases(run, trees, rng, nv, fault_limit, pairs=False, scripts=1, mode="eval"):
+def build_cases(run, trees, rng, nv, fault_limit, pairs=False, scripts=1, mode="eval", merged_suppress=False):
     cases = []
     for t in trees:
         t = clone(t)
         ns, ncm = number(t)
         for _ in range(scripts):
-            sc, supp = make_script(rng, t, ns, ncm)
+            sc, supp = make_script(rng, t, ns, ncm, merged_suppress)
             base = observe(t, sc, supp, {}, nv, tag="no fault", mode=mode)
             cases.append(base)
             if "log" in base.obs and fault_limit:
@@ -273,6 +286,13 @@ def c02_operand(rng, shape, truth, script, nxt):
         k = nxt()
         script[k] = [v]
         return T("do", 0, [T("setv", 0, [T("var", 1), T("eff", k)]), T("var", 1)])
+    if shape == "I":   # an `if` whose branch needs statements (the operand has a temporary of its own)
+        k1, k2 = nxt(), nxt()
+        script[k1] = [rng.choice(TRUTHY)]
+        script[k2] = [v]
+        return T("if", 0, [T("lit", 0, (), v=["bool", 1, []]),
+                           T("do", 0, [T("setv", 0, [T("var", 3), T("eff", k1)]), T("eff", k2)]),
+                           T("lit", 0, (), v=["int", 2, []])])
     if shape == "N":   # nested and/or whose value has the wanted truthiness
         k1, k2 = nxt(), nxt()
         script[k1] = [rng.choice(TRUTHY)]
@@ -288,7 +308,7 @@ def main_c02(run):
     nv = 3
     cases = []
     nmax = 4 if q else 5
-    shapes = "PESN"
+    shapes = "PESNI"
     wrappers = ["plain", "setv", "if", "arg"]
     n_prog = 0
     pyops_checked = 0
@@ -300,7 +320,9 @@ def main_c02(run):
             for sh in combos:
                 truths = list(itertools.product([True, False], repeat=n))
                 if n >= 4 and q:
-                    truths = rng.sample(truths, 6)
+                    truths = rng.sample(truths, 3)
+                elif n == 3 and q:
+                    truths = rng.sample(truths, 4)
                 for tr in truths:
                     script = {}
                     cnt = [0]
@@ -390,10 +412,56 @@ def wrap_reads(t, p=1.0, rng=None):
     return t
 
 
+def c06_rebinding_family(rng, quick):
+    """(let [n1 v1 n2 v2 (n3 v3)] body): names repeat, values capture earlier bindings in closures."""
+    import itertools
+    V = lambda i: T("var", i)
+    L = lambda i: T("lit", 0, (), v=["int", i, []])
+
+    def value(kind, j):
+        if kind == "lit":
+            return L(10 + j)
+        if kind in ("fa", "fb"):
+            return T("fn", 0, [T("do", 0, [V(1 if kind == "fa" else 2)])])
+        return T("eff", 0, [V(1 if kind == "ra" else 2)])
+    kinds = ["lit", "fa", "fb", "ra", "rb"]
+    out = []
+    for n in (2, 3):
+        for names in itertools.product((1, 2), repeat=n):
+            for ks in itertools.product(kinds, repeat=n):
+                if "fa" not in ks and "fb" not in ks:
+                    continue
+                for body in range(4):
+                    ch = []
+                    for j, (nm, k) in enumerate(zip(names, ks)):
+                        ch += [V(nm), value(k, j)]
+                    reads = [T("eff", 0, [V(1)]), T("eff", 0, [V(2)])]
+                    if body == 0:
+                        b = [T("args", "list", reads)]
+                    elif body == 1:
+                        b = [T("args", "list", reads + [T("eff", 0, [T("call", 0, [V(1)])])])]
+                    elif body == 2:
+                        b = [T("args", "list", reads + [T("eff", 0, [T("call", 0, [V(2)])])])]
+                    else:
+                        b = [T("setv", 0, [V(names[0]), L(99)]),
+                             T("args", "list", reads + [T("eff", 0, [T("call", 0, [V(names[-1])])])])]
+                    out.append(T("do", 0, [T("setv", 0, [V(1), L(1), V(2), L(2)]), T("let", n, ch + b),
+                                           T("args", "list", [V(1), V(2)])]))
+    if quick and len(out) > 1500:
+        out = rng.sample(out, 1500)
+    return out
+
+
 def main_c06(run):
     rng = random.Random(run.seed)
     q = run.quick
     nv = 4
+    fam = c06_rebinding_family(rng, q)
+    run.log(f"rebinding family: {len(fam)} programs")
+    fcases = build_cases(run, fam + [wrap_in_fn(t, 4) for t in fam[:: (4 if q else 1)]], rng, nv, fault_limit=0)
+    us = decide(run, fcases, nv, "c06-rebind")
+    for c in us[:1]:
+        run.sample(sample_of(c))
     forms_small = {"let", "fn", "setv", "var", "do", "call", "lit", "list"}
     en = Enum(forms_small, nv=2, lits=(["int", 1, []],))
     trees = []
@@ -431,10 +499,75 @@ def main_c06(run):
 
 
 # ---------------------------------------------------------------- C09
+def c09_handler_family(rng, quick):
+    """try with two or three handlers; an earlier handler binds a name that a later one
+    (which does not bind it) reads and assigns as an outer variable."""
+    import itertools
+    V = lambda i: T("var", i)
+    L = lambda i: T("lit", 0, (), v=["int", i, []])
+    out = []
+    tsets = [[1], [2], [3], [1, 3], [10]]
+    for t1, t2 in itertools.product(tsets, [[], [1], [2], [3]]):
+        for hv2 in (0, 1):
+            for h2 in range(3):
+                for fin in (0, 1):
+                    h1 = T("except", 0, [V(1), T("eff", 0, [V(1)])], ts=t1, hv=1)
+                    b2 = [T("eff", 0, [V(1)])] if h2 == 0 else \
+                        [T("setv", 0, [V(1), L(7)]), T("eff", 0, [V(1)])] if h2 == 1 else \
+                        [T("setx", 0, [V(1), L(8)])]
+                    if hv2 and not t2:
+                        continue
+                    h2n = T("except", 0, ([V(2)] if hv2 else []) + b2, ts=t2, hv=hv2)
+                    cl = [h1, h2n] + ([T("finally", 0, [T("eff", 0, [V(1)])])] if fin else [])
+                    tr = T("try", 0, [T("eff", 0)] + cl)
+                    out.append(T("do", 0, [T("setv", 0, [V(1), L(1), V(2), L(2)]), tr,
+                                           T("args", "list", [V(1), V(2)])]))
+    return out
+
+
+def c09_with_family():
+    """one form with two managers; the second manager may compile to statements"""
+    import itertools
+    V = lambda i: T("var", i)
+    out = []
+    for t1, t2 in itertools.product(("var", "nov"), repeat=2):
+        for m2 in ("cm", "do"):
+            for body in range(3):
+                mgr2 = T("cm", 0) if m2 == "cm" else T("do", 0, [T("setv", 0, [V(3), T("eff", 0)]), T("cm", 0)])
+                b = [T("eff", 0)] if body == 0 else [T("args", "list", [V(1), V(2)])] if body == 1 else []
+                inner = T("with", 0, [V(2) if t2 == "var" else T("nov"), mgr2] + b)
+                outer = T("with", 0, [V(1) if t1 == "var" else T("nov"), T("cm", 0), inner], merge=1)
+                out.append(T("do", 0, [T("setv", 0, [V(1), T("lit", 0, (), v=["int", 1, []]), V(2),
+                                                      T("lit", 0, (), v=["int", 2, []])]),
+                                       T("args", "list", [outer, V(1), V(2)])]))
+    return out
+
+
 def main_c09(run):
     rng = random.Random(run.seed)
     q = run.quick
     nv = 4
+    wfam = c09_with_family()
+    wcases = build_cases(run, wfam + [wrap_in_fn(t, 4) for t in wfam[::3]], rng, nv, fault_limit=8, scripts=2,
+                         merged_suppress=True)
+    for c in wcases:
+        c.tag += " |with2"
+    run.log(f"two-manager with family: {len(wfam)} programs, {len(wcases)} executions")
+    us = decide(run, wcases, nv, "c09-with2")
+    for c in us[3:4]:
+        run.sample(sample_of(c))
+    fam = c09_handler_family(rng, q)
+    fcases = []
+    for t in fam + [wrap_in_fn(t, 4) for t in fam[::3]]:
+        t = clone(t)
+        ns, ncm = number(t)
+        sc, supp = make_script(rng, t, ns, ncm)
+        for ty in (0, 1, 2, 3):
+            fcases.append(observe(t, sc, supp, {1: [ty]} if ty else {}, nv, tag=f"body raises {ty}"))
+    run.log(f"multi-handler family: {len(fam)} programs, {len(fcases)} executions")
+    us = decide(run, fcases, nv, "c09-handlers")
+    for c in us[5:6]:
+        run.sample(sample_of(c))
     forms_small = {"try", "with", "raise", "eff", "eff1", "do", "lit", "var", "setv"}
     en = Enum(forms_small, nv=2, lits=(["int", 1, []],))
     trees = []
